@@ -172,7 +172,8 @@ pub fn generate(seed: u64, grammars: &[Grammar]) -> Scenario {
     }
     let threads = 1 + rng.below(3);
     // most runs are short; one in forty is a long history (a leak that needs many steps)
-    let n_ops = if rng.chance(1, 40) { 48 + rng.below(150) } else { 4 + rng.below(13) };
+    // ... and one in four hundred a very long one (state that builds up over thousands of calls)
+    let n_ops = if rng.chance(1, 400) { 1500 + rng.below(1500) } else if rng.chance(1, 40) { 48 + rng.below(150) } else { 4 + rng.below(13) };
     let w_parse = 4 + rng.below(8);
     let w_reparse = rng.below(4);
     let w_clone = rng.below(3);
@@ -261,6 +262,11 @@ pub fn generate(seed: u64, grammars: &[Grammar]) -> Scenario {
                 parses.push((id, slot));
                 if matches!(entry, Entry::Parse | Entry::ParsePartial) {
                     results.push((id, slot));
+                }
+                if results.len() > 48 {
+                    // keep the pairwise comparisons bounded in very long histories
+                    let (of, _) = results.remove(0);
+                    ops.push(Op::DropResult { of });
                 }
                 let (gname, rule2, thread) = (g.name.to_string(), rule.clone(), rng.below(threads));
                 ops.push(Op::Parse { id, slot, g: gname.clone(), rule, entry, form, a, b, thread });
